@@ -9,6 +9,8 @@ import (
 	"crypto/elliptic"
 	"crypto/rand"
 	"crypto/rsa"
+	"encoding/base64"
+	"encoding/hex"
 	"encoding/json"
 	"fmt"
 	"os"
@@ -306,6 +308,18 @@ func fileKeys() []fileKey {
 			must(k.Set(jwk.KeyUsageKey, jwk.ForEncryption))
 			add(k, true)
 		}
+		// valid keys published without a `kid` (a key set exported without ids)
+		for i, p := range keys.Pool() {
+			if p.PrivSet == nil || i%2 == 0 {
+				continue
+			}
+			for _, set := range []jwk.Set{p.PrivSet, p.PubSet} {
+				k, _ := set.Key(0)
+				k, _ = k.Clone()
+				must(k.Remove(jwk.KeyIDKey))
+				add(k, true)
+			}
+		}
 		// invalid ones: HS512 oct, RS256 RSA, no alg, ES256 EC
 		oct, _ := jwk.FromRaw([]byte("0123456789abcdef0123456789abcdef"))
 		must(oct.Set(jwk.AlgorithmKey, jwa.HS512))
@@ -443,6 +457,19 @@ func TestPropLoadKey(t *testing.T) {
 			chosen = append(chosen, all[i])
 			raws = append(raws, all[i].JSON)
 		}
+		// one file in four is made to hold a key without an id
+		if cnt >= 1 && rapid.IntRange(0, 3).Draw(t, "kidless") == 0 {
+			var kl []fileKey
+			for _, fk := range all {
+				if fk.Kid == "" && fk.Valid {
+					kl = append(kl, fk)
+				}
+			}
+			at := rapid.IntRange(0, cnt-1).Draw(t, "kidlessat")
+			chosen[at] = rapid.SampledFrom(kl).Draw(t, "kidlesskey")
+			raws[at] = chosen[at].JSON
+			recLoad.Class("file-holds-a-key-without-kid")
+		}
 		// one file in eight also holds an entry that cannot be decoded
 		var poison *fileKey
 		if len(undecodable) > 0 && cnt >= 1 && rapid.IntRange(0, 7).Draw(t, "poison") == 0 {
@@ -480,7 +507,19 @@ func TestPropLoadKey(t *testing.T) {
 		// the class of request first (no id / an id of the file / anything else), so that the many
 		// near misses do not crowd out the first two
 		var id string
-		switch cls := rapid.IntRange(0, 2).Draw(t, "idclass"); {
+		// ids derived from a key's material rather than from its `kid`: the RFC 7638 thumbprint in the
+		// usual spellings. A key is addressed by its id only - a key without one is reachable as "the only
+		// key" and in no other way
+		var derived []string
+		for _, c := range chosen {
+			if raw, err := hex.DecodeString(c.Thumb); err == nil && len(raw) > 0 {
+				derived = append(derived, c.Thumb, base64.RawURLEncoding.EncodeToString(raw), base64.URLEncoding.EncodeToString(raw), base64.StdEncoding.EncodeToString(raw), "sha256:"+c.Thumb)
+			}
+		}
+		switch cls := rapid.IntRange(0, 3).Draw(t, "idclass"); {
+		case cls == 3 && len(derived) > 0:
+			id = rapid.SampledFrom(derived).Draw(t, "derivedid")
+			recLoad.Class("id-derived-from-key-material")
 		case cls == 0:
 			id = ""
 		case cls == 1 && len(exact) > 0:
